@@ -282,6 +282,17 @@ Definition py_simple (e : env) (i : instr) : option (nat * (list pval -> pres)) 
   | I_NONE t => Some (0, fun _ => POk [PNone t])
   | I_UNIT => Some (0, fun _ => POk [PUnit])
   | I_NIL t => Some (0, fun _ => POk [PList t []])
+  | I_LAMBDA a b body => Some (0, fun _ => POk [PLam a b body])
+  | I_APPLY => Some (2, fun x => match x with
+                                 | [lft; PLam (TPair ta tb) c body] =>
+                                     if ty_eqb (rt_type lft) ta
+                                     then match data_of_pval lft with
+                                          | Some d => POk [PLam tb c (I_SEQ (I_PUSH ta d) (I_SEQ I_PAIR (I_SEQ body I_NOOP)))]
+                                          | None => PErr
+                                          end
+                                     else PErr
+                                 | _ => PErr
+                                 end)
   | I_EMPTY_SET k => Some (0, fun _ => POk [PSet k []])
   | I_EMPTY_MAP k v => Some (0, fun _ => POk [PMap k v []])
   | I_MEM => Some (2, fun a => match a with
@@ -617,6 +628,22 @@ Fixpoint py_eval (e : env) (fuel : nat) (i : instr) (st : pstack) {struct fuel} 
               | Some s => PDone (push (PBytes s) st1)
               | None => PError
               end
+          | _ => PError
+          end
+      | I_EXEC =>
+          match pop 2 st with
+          | Some ([param; PLam a b body], st1) =>
+              if ty_eqb (rt_type param) a then
+                match py_eval e f body (mkstack [param] 0) with      (* a fresh MichelsonStack holding the argument *)
+                | PDone ls =>
+                    match pop1 ls with
+                    | Some (res, ls') =>
+                        if ty_eqb (rt_type res) b && (length (items ls') =? 0) then PDone (push res st1) else PError
+                    | None => PError
+                    end
+                | o => o
+                end
+              else PError
           | _ => PError
           end
       | _ => match py_simple e i with
